@@ -818,6 +818,7 @@ func (tree *MutableTree) SaveVersion() ([]byte, int64, error) {
 		}
 	}
 
+	verifYield("save:before-commit")
 	if err := tree.ndb.Commit(); err != nil {
 		return nil, version, err
 	}
